@@ -630,17 +630,6 @@ class CondSys:
                 else 'wakeups-too-many'
             dis.append((f'{k}-after-{name}', ref.pending, owed,
                         'wake-ups queued per routine on the NRT scheduler'))
-        lists = {c: [w.ttname(t) for t in x._waiting_threads]
-                 for c, x in w.conds.items()}
-        lists.update({f: [w.ttname(t) for t in
-                          x.condition._waiting_threads]
-                      for f, x in w.fvs.items()})
-        explists = {c: list(x.waiting) for c, x in ref.conds.items()}
-        explists.update({f: list(x.cond.waiting)
-                         for f, x in ref.fvs.items()})
-        if lists != explists:
-            dis.append((f'waiting-list-after-{name}', explists, lists,
-                        'routines parked on each condition'))
         self.last = [obs, owed]
         return dis
 
